@@ -77,6 +77,47 @@ def joins_child(ctx, cls, call, func, depth=0):
     return False
 
 
+def check_process_poll_thread_safety(ctx):
+    """multiprocessing.Process.is_alive() / join() poll the child with waitpid() and are not safe against each other from two threads: the thread that
+    loses the race gets "no such child" and reports the process alive although it has exited (until the winner has stored the exit code).  The
+    registry makes that reachable: Worker.active_children() calls is_alive() on every registered worker from whatever thread asks, while the owner
+    of a worker sits in wait() / terminate().  For the process kind - the registered class whose self._child is a multiprocessing Process - the verdict
+    `self._child.is_alive()` of is_alive / wait / terminate is therefore taken under a lock of the worker (or read from the child's sentinel, which
+    does not depend on who reaped the process).  F35: today it is not."""
+    P = ctx.prog
+    PW = P.cls('ProcessWorker')
+    ac = P.cls('Worker').methods.get('active_children')
+    polls = ac is not None and any(last_attr(c) == 'is_alive' for c in calls_in(ac.node))
+    if not polls:
+        ctx.ob('R2', 'the registry does not poll registered workers from foreign threads', True)
+        return
+    n = 0
+    for name in ('is_alive', 'wait', 'terminate'):
+        f = PW.methods.get(name)
+        if f is None:
+            continue
+        ctx.used(f)
+        pm = parent_map(f.node)
+        bare = []
+        for c in calls_in(f.node):
+            if last_attr(c) == 'is_alive' and receiver(c) == 'self._child':
+                n += 1
+                cur = c
+                locked = False
+                while cur in pm:
+                    cur = pm[cur]
+                    if isinstance(cur, ast.With) and any('lock' in norm(it.context_expr).lower() for it in cur.items):
+                        locked = True
+                if not locked:
+                    bare.append(c)
+        ctx.check('R2', f'{f.short}: the liveness poll of the child process is serialised with the polls other threads make through the registry', not bare, f.short,
+                  'process-poll-not-serialised',
+                  f'{f.short} takes its verdict from `self._child.is_alive()` with nothing that serialises it against a concurrent is_alive() of the same worker from another '
+                  'thread (Worker.active_children() polls every registered worker): the thread that loses the waitpid race sees a dead child as alive - wait(30) returns False '
+                  'after 10 ms for a worker whose process is gone', where=loc(f, bare[0]) if bare else loc(f, f.node))
+    ctx.floor('liveness polls of the child process in is_alive / wait / terminate', n, 3)
+
+
 def units(ctx):
     """(cls, method func, region name, stmts) for every implementation body to analyse"""
     P = ctx.prog
@@ -246,6 +287,7 @@ def run(ctx):
     from ..frame import check_frame_attrs
     from ..sockets import check_forced_kill_eof
     check_frame_attrs(ctx, 'C04', 'R3')
+    check_process_poll_thread_safety(ctx)
     from ..frame import check_dead_flag_lowering
     check_dead_flag_lowering(ctx, 'R3')
     check_ident_reads(ctx)
